@@ -366,6 +366,19 @@ class Module:
                 idx.append(self.const_scalar(ity, p))
             p.expect(')')
             return base + self.gep_offset(bty, [self.sx(x, 64) for x in idx])
+        if t in ('trunc', 'zext', 'sext'):
+            p.expect('(')
+            sty = p.type()
+            v = self.const_scalar(sty, p)
+            p.expect('to')
+            dty = self.types.resolve(p.type())
+            p.expect(')')
+            sb = self.types.resolve(sty)
+            sbits = sb[1] if sb[0] == 'i' else 64
+            dbits = dty[1] if dty[0] == 'i' else 64
+            if t == 'sext' and v >> (sbits - 1):
+                v -= 1 << sbits
+            return v & ((1 << dbits) - 1)
         if t in ('bitcast', 'ptrtoint', 'inttoptr', 'addrspacecast'):
             p.expect('(')
             sty = p.type()
